@@ -94,8 +94,16 @@ impl TypeRegistry {
     pub(crate) fn resolve_string(&self, scope: &[ItemPath], name: &str) -> Option<Type> {
         // todo: take scope_modules and scope_types instead of scope so that we don't need
         // to do this partitioning
-        let (scope_types, scope_modules): (Vec<&ItemPath>, Vec<&ItemPath>) =
-            scope.iter().partition(|ip| self.is_known(ip));
+        // The first entry of a scope is the module itself (see `Module::scope`), and that is
+        // always a module, even if a type of the same path exists; the others are imports.
+        let (own_module, imports) = match scope.split_first() {
+            Some((own_module, imports)) => (Some(own_module), imports),
+            None => (None, scope),
+        };
+        let (scope_types, imported_modules): (Vec<&ItemPath>, Vec<&ItemPath>) =
+            imports.iter().partition(|ip| self.is_known(ip));
+        let scope_modules: Vec<&ItemPath> =
+            own_module.into_iter().chain(imported_modules).collect();
 
         // If we find the relevant type within our scope, take the last one
         scope_types
